@@ -229,6 +229,8 @@ class Ctx:
                 self.proof_ok = False
                 self.broken_obligations.append(f"no axiom report for {t}")
         self.discharged = ok if self.proof_ok else min(ok, self.obligations - 1)
+        if self.proof_ok and os.environ.get("VERIF_SKIP_LINKAGE") != "1":
+            self._linkage(thms)
         if self.tier == "thorough" and self.proof_ok and os.environ.get("VERIF_SKIP_LEANCHECKER") != "1":
             with LakeLock():
                 rc, out = _sh(["lake", "env", "leanchecker", *props_modules], cwd=LEAN_DIR, timeout=1800)
@@ -236,6 +238,46 @@ class Ctx:
             if rc != 0:
                 self.proof_ok = False
                 self.broken_obligations.append("leanchecker rejected a Props module")
+
+    def _linkage(self, thms: list[tuple[str, str]]) -> None:
+        """Linkage audit: a theorem counts as an obligation of the check only when its STATEMENT mentions a definition the
+        compiled driver runs (the executable model the correspondence compares with the real code) or one regenerated from
+        /repo's source by a translator.  A theorem about definitions that neither the driver nor a translator reaches says
+        nothing about the code: it is listed in the evidence (`untied_theorems`) and NOT counted."""
+        tpl = (Path(__file__).resolve().parent / "linkage_template.lean").read_text()
+        roots = [f"Driver.{p.stem}.handle" for p in sorted((LEAN_DIR / "Driver").glob("H_*.lean"))]
+        body = tpl.replace("--IMPORTS--", "".join(f"import {m}\n" for m in dict.fromkeys(m for m, _ in thms)))
+        body = body.replace("--ROOTS--", ", ".join("`" + r for r in roots)).replace("--THMS--", ", ".join("`" + t for _, t in thms))
+        f = WORK / f"Linkage_{self.prop}_{os.getpid()}.lean"
+        f.write_text(body)
+        with LakeLock():
+            rc, out = _sh(["lake", "env", "lean", str(f)], cwd=LEAN_DIR)
+        f.unlink(missing_ok=True)
+        rows = []
+        for line in out.splitlines():
+            if line.startswith("LINKAGE {"):
+                try:
+                    rows.append(json.loads(line[len("LINKAGE "):]))
+                except ValueError:
+                    pass
+        if rc != 0 or len(rows) != len(thms):
+            self.notes.append(f"linkage audit did not run (exit {rc}): {out[-300:]}")
+            return
+        untied = [r["theorem"] for r in rows if not r.get("found") or (r["tied"] == 0 and r["generated"] == 0)]
+        self.extra_cov["linkage"] = {
+            "rule": "per theorem: project-local definitions reachable from its statement (not through proofs); tied = run by a "
+                    "driver handler, generated = regenerated from /repo's source this run, spec = specification-only vocabulary",
+            "driver_handlers": roots,
+            "theorems": {r["theorem"]: {"tied": r.get("tied", 0), "generated": r.get("generated", 0), "spec_only": r.get("spec", [])}
+                         for r in rows},
+        }
+        self.extra_cov["untied_theorems"] = untied
+        if untied:
+            self.notes.append(f"{len(untied)} theorem(s) mention no definition the driver runs or a translator regenerates; "
+                              f"they are not counted as obligations: {untied}")
+            self.theorems = [t for t in self.theorems if t not in untied]
+            self.obligations -= len(untied)
+            self.discharged = max(0, self.discharged - len(untied))
 
     # ------------------------------------------------------------------ counting
     def count(self, case, shape: str = "", nontrivial: bool = True) -> None:
